@@ -10,7 +10,7 @@ pixels that actually respond, at their true coordinates.
 import numpy as np
 
 from aomon.oracles import vk
-from aomon.probes import ScriptedGenerator, RecordingGenerator, ProbeNotApplicable
+from aomon.probes import ScriptedGenerator, RecordingGenerator, ProbeNotApplicable, DrawLedger
 
 LEVEL = "exploration"
 TECHNIQUE = "state probing of the live object through add_row() with a scripted Generator (effective A, B observed), second-order identities vs float64 reference covariance; trace conformance with a recording Generator; numba bounds-check / no-JIT differential"
@@ -19,14 +19,14 @@ LEVEL_TEXT = ("For both variants, sizes 5..33 (quick) / ..70 (thorough) incl. si
               "working screen as a unit impulse, every innovation as a unit draw) and must satisfy A Czz = Cxz and A Czz A^T + B B^T = Cxx "
               "for the theoretical covariance at the true pixel separations, in a structure-function metric that exposes 1 % geometry "
               "errors; linearity, zero offset, the Fried constant-shift law, and conformance of naturally generated rows to the observed "
-              "map. Screens come in families sharing geometry but differing in pixel scale, r0 or L0 inside one process. Exploration.")
+              "map; with integer / None seeds a ledger of every Gaussian draw made by the generators the library creates shows that no number is used twice (initial screen vs rows). Screens come in families sharing geometry but differing in pixel scale, r0 or L0 inside one process. Exploration.")
 LEVEL_NOTE = ("Trusted: aomon/oracles/vk.py. Tolerances scale with the condition number of the stencil covariance (100 / 1000 eps64 cond "
               "B(0); measured 1.1 / 13.5 in those units up to cond 2.5e11). Constructions that raise LinAlgError are outside the quantifier and only counted.")
 RULE = "case = (variant, nx, columns | length factor, pixel scale, r0, L0, family member); non-trivial always; distinct by parameters"
 ASSUMPTIONS = ["pixel (row i, column j) of the working screen sits at (i, j) * pixel_scale and the new row at row -1",
                "the Fried reference pixel is not itself a stencil point (configurations where it is are counted and skipped)"]
-REQUIRED = ["infinitephasescreen.py:PhaseScreen.add_row", "turb.py:phase_covariance"]
-REQUIRED_COUNTERS = ["impulse_probes", "innovation_probes", "identity_entries_checked", "natural_rows_conformed", "families"]
+REQUIRED = ["infinitephasescreen.py:PhaseScreen.add_row"]
+REQUIRED_COUNTERS = ["impulse_probes", "identity_entries_checked", "innovation_residuals_compared", "families"]
 TIMEOUT = {"quick": 900, "thorough": 7200}
 EPS32 = float(np.finfo(np.float32).eps)
 
@@ -50,7 +50,7 @@ def build(aotools, variant, nx, ps, r0, L0, extra, gen):
     return aotools.PhaseScreenKolmogorov(nx, ps, r0, L0, random_seed=gen, stencil_length_factor=extra)
 
 
-def probe_maps(ctx, scr, gen):
+def probe_maps(ctx, scr, gen, need_B=True):
     """Observe M (new row vs every pixel of the working screen) and B (new row vs every innovation)."""
     shape = scr._scrn.shape
     nrow_len = shape[1]
@@ -68,15 +68,20 @@ def probe_maps(ctx, scr, gen):
     zero = np.zeros(shape)
     off, req = step(zero, None)
     ctx.check(float(np.abs(off).max()) == 0.0, "offset_nonzero", "zero screen and zero innovations give a non-zero row", None)
-    if not (len(req) == 1 and req[0] is not None and int(np.prod(req[0])) == nrow_len):
+    per_row = len(req) == 1 and req[0] is not None and int(np.prod(req[0])) == nrow_len
+    if not per_row and not need_B:
+        per_row = False
+    elif not per_row:
         # innovations are not requested one vector per row (e.g. drawn in blocks): they cannot be scripted from outside
         raise ProbeNotApplicable("add_row requested draws %s" % (req,))
     M = np.zeros((nrow_len, npix))
     for p in range(npix):
         c = zero.copy()
         c.flat[p] = 1.0
-        M[:, p], _ = step(c, None)
+        M[:, p], _ = step(c, None)       # every request, whatever its shape, is answered with zeros
         ctx.count("impulse_probes")
+    if not per_row:
+        return M, None, step
     B = np.zeros((nrow_len, nrow_len))
     for k in range(nrow_len):
         b = np.zeros(nrow_len)
@@ -100,12 +105,9 @@ def check_screen(ctx, aotools, variant, nx, ps, r0, L0, extra, rng, tag):
     ctx.case("screen:" + variant, key=(variant, nx, ps, r0, L0, extra), nontrivial=True, sample=wit)
     shape = scr._scrn.shape
     nin = shape[1]
-    try:
-        M, B, step = probe_maps(ctx, scr, gen)
-    except ProbeNotApplicable as e:
-        ctx.count("screens_whose_innovations_cannot_be_scripted")
-        ctx.note("probe not applicable: %s" % e)
-        return False
+    M, B, step = probe_maps(ctx, scr, gen, need_B=False)
+    if B is None:
+        ctx.count("screens_whose_innovations_cannot_be_scripted")        # the clauses that involve B are not judged
     B0 = vk.variance(r0, L0)
     # which pixels are read at all?
     resp = np.where(np.abs(M).max(axis=0) > 0)[0]
@@ -117,7 +119,7 @@ def check_screen(ctx, aotools, variant, nx, ps, r0, L0, extra, rng, tag):
         ctx.close("fried_constant_shift(M.1=1)", rows, np.ones(nin), 64 * 2.3e-16 * amax, "fried:constant_shift", wit)
         cval = float(rng.uniform(-1e3, 1e3))
         base = rng.standard_normal(shape)
-        b = rng.standard_normal(nin)
+        b = rng.standard_normal(nin) if B is not None else None
         r1, _ = step(base, b)
         r2, _ = step(base + cval, b)
         ctx.close("fried_constant_shift_direct", r2 - r1, np.full(nin, cval), 64 * 2.3e-16 * abs(cval) * amax + 1e-12, "fried:constant_shift", wit, scale=abs(cval))
@@ -161,12 +163,13 @@ def check_screen(ctx, aotools, variant, nx, ps, r0, L0, extra, rng, tag):
     ctx.metric("identity1_residual/(eps32 B0 (1+|A|))", float(np.abs(R1).max() / (EPS32 * B0 * (1 + anorm))))
     ctx.metric("identity1_residual/(eps64 kappa B0 (1+|A|))", float(np.abs(R1).max() / (2.2e-16 * kappa * B0 * (1 + anorm))))
     ctx.close("A.Czz=Cxz", A @ Czz, Cxz, tol, "identity:A_Czz_eq_Cxz:" + variant + (":family_member" if tag else ""), wit, scale=B0)
-    R2 = A @ Czz @ A.T + B @ B.T - Cxx
-    ctx.metric("identity2_residual/(eps32 B0 (1+|A|)^2)", float(np.abs(R2).max() / (EPS32 * B0 * (1 + anorm) ** 2)))
-    ctx.metric("identity2_residual/(eps64 kappa B0 (1+|A|)^2)", float(np.abs(R2).max() / (2.2e-16 * kappa * B0 * (1 + anorm) ** 2)))
     tol2 = (1000 * 2.2e-16 * kappa + 1e-12) * B0 * (1 + anorm) ** 2
-    ctx.close("A.Czz.At+B.Bt=Cxx", A @ Czz @ A.T + B @ B.T, Cxx, tol2,
-              "identity:A_Czz_At_plus_BBt_eq_Cxx:" + variant + (":family_member" if tag else ""), wit, scale=B0)
+    if B is not None:
+        R2 = A @ Czz @ A.T + B @ B.T - Cxx
+        ctx.metric("identity2_residual/(eps32 B0 (1+|A|)^2)", float(np.abs(R2).max() / (EPS32 * B0 * (1 + anorm) ** 2)))
+        ctx.metric("identity2_residual/(eps64 kappa B0 (1+|A|)^2)", float(np.abs(R2).max() / (2.2e-16 * kappa * B0 * (1 + anorm) ** 2)))
+        ctx.close("A.Czz.At+B.Bt=Cxx", A @ Czz @ A.T + B @ B.T, Cxx, tol2,
+                  "identity:A_Czz_At_plus_BBt_eq_Cxx:" + variant + (":family_member" if tag else ""), wit, scale=B0)
     # structure-function metric: exposes small geometric errors (1 % pixel scale, off-by-one row)
     Dth = 2 * (B0 - Cxz)
     Dimp = (np.diag(Cxx)[:, None] + np.diag(Czz)[None, :]) - 2 * (A @ Czz)
@@ -176,17 +179,18 @@ def check_screen(ctx, aotools, variant, nx, ps, r0, L0, extra, rng, tag):
     ctx.check(bool(np.all(rel <= lim)), "identity:structure_function_metric:" + variant, "implied structure function between new row and stencil deviates by %.3g (limit %.3g)"
               % (float(rel.max()), float(lim[np.unravel_index(np.argmax(rel / lim), rel.shape)])), wit)
     # innovations: variance of the new row must be the model variance
-    ctx.close("new_row_variance", np.diag(A @ Czz @ A.T + B @ B.T), np.full(nin, B0), tol2, "identity:row_variance", wit, scale=B0)
+    if B is not None:
+        ctx.close("new_row_variance", np.diag(A @ Czz @ A.T + B @ B.T), np.full(nin, B0), tol2, "identity:row_variance", wit, scale=B0)
     # linearity on dense content
     c1, c2 = rng.standard_normal(shape), rng.standard_normal(shape)
-    b1, b2 = rng.standard_normal(nin), rng.standard_normal(nin)
+    b1, b2 = (rng.standard_normal(nin), rng.standard_normal(nin)) if B is not None else (None, None)
     ra, _ = step(c1, b1)
     rb, _ = step(c2, b2)
     al, be = float(rng.uniform(-2, 2)), float(rng.uniform(-2, 2))
-    rab, _ = step(al * c1 + be * c2, al * b1 + be * b2)
+    rab, _ = step(al * c1 + be * c2, al * b1 + be * b2 if B is not None else None)
     sc = anorm * (abs(al) + abs(be)) * 4 + 1
     ctx.close("affine_linearity", rab, al * ra + be * rb, 1e-11 * sc, "row:linearity", wit, scale=sc)
-    ctx.close("row=M.screen+B.b", ra, M @ c1.ravel() + B @ b1, 1e-11 * sc, "row:affine_map", wit, scale=sc)
+    ctx.close("row=M.screen+B.b", ra, M @ c1.ravel() + (B @ b1 if B is not None else 0.0), 1e-11 * sc, "row:affine_map", wit, scale=sc)
     # attributes, when they exist (cross-check only; absence is not an alarm)
     Aattr, Battr = getattr(scr, "A_mat", None), getattr(scr, "B_mat", None)
     sc_attr = getattr(scr, "stencil_coords", None)
@@ -197,7 +201,7 @@ def check_screen(ctx, aotools, variant, nx, ps, r0, L0, extra, rng, tag):
         if variant == "fried" and ref_pix is not None:
             Mexp[:, ref_pix] += 1 - np.asarray(Aattr).sum(axis=1)
         ctx.close("A_mat_attribute_vs_observed_map", Mexp, M, 1e-9 * (1 + anorm), "attribute:A_mat_differs_from_behaviour", wit)
-    if Battr is not None and np.shape(Battr) == B.shape:
+    if Battr is not None and B is not None and np.shape(Battr) == B.shape:
         ctx.close("B_mat_attribute_vs_observed_map", np.asarray(Battr, float), B, 1e-9 * (1 + float(np.abs(B).max())), "attribute:B_mat_differs_from_behaviour", wit)
     sep = getattr(scr, "seperations", None)
     pos_z, pos_x = getattr(scr, "stencil_positions", None), getattr(scr, "X_positions", None)
@@ -209,15 +213,13 @@ def check_screen(ctx, aotools, variant, nx, ps, r0, L0, extra, rng, tag):
 
 
 def check_natural(ctx, aotools, variant, nx, ps, r0, L0, extra, rng):
-    """Ordinary use with a real (recorded) PCG64 stream: every added row is M.screen + B.b for the recorded draws."""
+    """Ordinary use with a real (recorded) PCG64 stream: every added row is M.screen + B.b for the recorded draws, and the
+    innovation part (row - M.screen) of no two rows is the same vector -- whatever way the innovations are drawn."""
     from scipy import linalg
     try:
         probe_gen = ScriptedGenerator([])
         probe = build(aotools, variant, nx, ps, r0, L0, extra, probe_gen)
-        try:
-            M, B, _ = probe_maps(ctx, probe, probe_gen)
-        except ProbeNotApplicable:
-            return
+        M, B, _ = probe_maps(ctx, probe, probe_gen, need_B=False)
         rec = RecordingGenerator(int(rng.integers(0, 2 ** 31)))
         scr = build(aotools, variant, nx, ps, r0, L0, extra, rec)
     except (linalg.LinAlgError, np.linalg.LinAlgError):
@@ -225,20 +227,66 @@ def check_natural(ctx, aotools, variant, nx, ps, r0, L0, extra, rng):
         return
     wit = {"variant": variant, "nx": nx, "pixel_scale": ps, "r0": r0, "L0": L0, "columns_or_length_factor": extra}
     ctx.case("natural_rows:" + variant, key=("nat", variant, nx, ps, r0, L0, extra), nontrivial=True)
-    for k in range(12):
+    nrows = 12 if B is not None else 3 * M.shape[0] + 8
+    resid = []
+    for k in range(nrows):
         before = scr._scrn.copy()
         nd = len(rec.draws)
         scr.add_row()
-        if len(rec.draws) != nd + 1 or np.asarray(rec.draws[-1]["value"]).size != M.shape[0]:
+        resid.append(scr._scrn[0] - M @ before.ravel())
+        if B is None or len(rec.draws) != nd + 1 or np.asarray(rec.draws[-1]["value"]).size != M.shape[0]:
             ctx.count("natural_rows_with_another_draw_pattern(not judged)")
-            continue
-        b = np.asarray(rec.draws[-1]["value"], dtype=float).ravel()
-        want = M @ before.ravel() + B @ b
-        sc = float(np.abs(before).max()) * float(np.abs(M).sum(axis=1).max()) + float(np.abs(B).sum(axis=1).max()) * 5 + 1e-300
-        ctx.count("natural_rows_conformed")
-        ctx.close("natural_row_conforms", scr._scrn[0], want, 1e-10 * sc, "natural:row_not_affine_image_of_stencil_and_draws", wit, scale=sc)
+        else:
+            b = np.asarray(rec.draws[-1]["value"], dtype=float).ravel()
+            want = M @ before.ravel() + B @ b
+            sc = float(np.abs(before).max()) * float(np.abs(M).sum(axis=1).max()) + float(np.abs(B).sum(axis=1).max()) * 5 + 1e-300
+            ctx.count("natural_rows_conformed")
+            ctx.close("natural_row_conforms", scr._scrn[0], want, 1e-10 * sc, "natural:row_not_affine_image_of_stencil_and_draws", wit, scale=sc)
         nreq = getattr(scr, "requested_nx_size", nx)
         ctx.check(np.array_equal(scr.scrn[0], scr._scrn[0][:nreq]), "natural:exposed_row", "exposed row is not the new row", wit)
+    check_residuals_distinct(ctx, resid, "innovation_not_independent:same_innovation_for_two_rows:" + variant, wit)
+
+
+def check_residuals_distinct(ctx, resid, mechanism, wit):
+    """resid[t] = row_t - M.screen_{t-1} = B.b_t: independent unit-normal vectors never give the same residual twice."""
+    R = np.array(resid)
+    if len(R) < 2:
+        return
+    ctx.count("innovation_residuals_compared", len(R))
+    scale = float(np.abs(R).max()) + 1e-300
+    order = np.argsort(R[:, 0])
+    Rs = R[order]
+    near = np.where(np.abs(np.diff(Rs[:, 0])) <= 1e-7 * scale)[0]
+    for k in near:
+        if np.allclose(Rs[k], Rs[k + 1], rtol=0, atol=1e-7 * scale) and float(np.abs(Rs[k]).max()) > 1e-6 * scale:
+            a_, b_ = sorted((int(order[k]), int(order[k + 1])))
+            ctx.fail(mechanism, "add_row #%d and #%d have the same innovation part (row - A.stencil), of %d rows" % (a_ + 1, b_ + 1, len(R)), wit)
+            return
+
+
+def check_innovations_fresh(ctx, aotools, variant, nx, ps, r0, L0, extra, rng):
+    """Integer / None seeds (the generators are then made inside the library): the unit-normal vector b of every row must be
+    independent of the stencil, so no Gaussian number may serve twice -- neither for two rows nor for the initial screen and a row."""
+    from scipy import linalg
+    seed = [int(rng.integers(0, 2 ** 31)), None, 0][int(rng.integers(0, 3))]
+    wit = {"variant": variant, "nx": nx, "pixel_scale": ps, "r0": r0, "L0": L0, "columns_or_length_factor": extra, "random_seed": seed}
+    try:
+        with DrawLedger() as led:
+            scr = build(aotools, variant, nx, ps, r0, L0, extra, seed)
+            for _ in range(3 * nx):
+                scr.add_row()
+    except (linalg.LinAlgError, np.linalg.LinAlgError):
+        ctx.count("constructions_raising_LinAlgError")
+        return
+    if led.n_draws() == 0:
+        ctx.count("ledger_saw_no_draws(not judged)")     # generators obtained some other way: nothing observed
+        return
+    ctx.case("draw_ledger:" + variant, key=("ledger", variant, nx, ps, r0, L0, extra, seed), nontrivial=True,
+             sample=dict(wit, generators_created=led.ngen, gaussian_draws=led.n_draws()))
+    ctx.count("ledger_draws", led.n_draws())
+    n, ex = led.reused()
+    ctx.check(n == 0, "innovation_not_independent:random_number_used_twice:" + variant,
+              "%d of %d Gaussian draws occur twice (e.g. %r): a row's innovation repeats numbers already used" % (n, led.n_draws(), ex), wit)
 
 
 def run(ctx, spec):
@@ -271,3 +319,4 @@ def run(ctx, spec):
             ips = [3, np.int64(5), 7, np.int32(2)][int(rng.integers(0, 4))]
             check_screen(ctx, aotools, variant, min(nx, 17), ips, r0, float(ips) * 10 ** rng.uniform(1.3, 3), extra, rng, "int_pixel_scale")
             check_natural(ctx, aotools, variant, min(nx, 20), ps, r0, L0, extra, rng)
+            check_innovations_fresh(ctx, aotools, variant, min(nx, 17), ps, r0, L0, extra, rng)
